@@ -34,22 +34,32 @@ TRUSTED_BASE = [
     "(results compared by validity + length only: which shortest path networkx returns is unspecified), "
     "nx.all_simple_paths(cutoff) by a DFS enumeration proved sound and complete, nx.cycle_basis(G.subgraph(path)) == [] by "
     "'every edge with both ends on the path joins consecutive path nodes'",
-    "the typed-graph view (Query.build) of one graph id stands for storage.extract_graph; the store itself belongs to C04/C05",
+    "the typed-graph view (Query.build) of one graph id stands for storage.extract_graph; the store itself belongs to C04/C05. Which nodes and "
+    "edges a graph id has after add_node/add_link/delete_node/merge_nodes/GraphID re-labelling in a store shared by several graphs is computed "
+    "by the harness's own Store (records + edges, nx.contracted_nodes semantics for merge; an edge crossing into another graph is not part of "
+    "either graph) and handed to the model as a view; checked differentially on every case",
 ]
 ASSUMPTIONS = [
+    "a query on a graph id answers from that graph only: nodes carrying the GraphID and edges with both ends among them (what extract_graph "
+    "cuts out of the shared store); edges left crossing into another graph by merge_nodes or a re-labelled node are not followed",
     "node ids are distinct within a graph id (same id under two classes is C05's subject)",
     "cut_off is a non-negative integer; relation, class and node id arguments are strings (None is rejected by the asserts)",
     "'loop-free' for path-with-hops is the documented sense of the code: no cycle in the subgraph induced by the path",
 ]
-RULE = ("histories: several wrapper objects per graph id, query / mutate through another (or the same) wrapper / query again, "
-        "queries and mutations on other graphs in between; every answer against the model and the oracle on the store as it is now and "
+RULE = ("stores: 1-3 graphs in ONE shared store (same node ids in several graphs; in 60% of the multi-graph shared cases 1-3 merge_nodes / "
+        "GraphID re-labelling steps in either direction, then more links) or in the disjoint store; "
+        "histories: several wrapper objects per graph id, query / mutate through another (or the same) wrapper / query again, "
+        "queries and mutations on other graphs in between, merge_nodes / re-labelling between the graphs of the shared store; every answer against the model and the oracle on the store as it is now and "
         "against a fresh wrapper; non-trivial history query = asked after a mutation with a non-empty answer or mixed relations.  "
         "case = (store with 1-3 graphs built through add_node/add_link in interleaved order, target graph, query); queries: "
         "first-neighbour, two-hop, shortest path (with and without relation), path-with-hops (hop lists, cut-offs), derived helpers; "
         "non-trivial = the answer is non-empty or the queried node has incident edges of >= 2 relations; "
         "distinct by (canonical target view, query); thorough adds every graph on <= 4 nodes over 2 relations x 2 classes (names x/xx, A/AB; <= 3 nodes also with the empty string and Link/CompositeLink) "
         "up to isomorphism, and every graph on <= 3 nodes with self-loops, with all queries; the <= 3 node families (empty string, Link/CompositeLink, "
-        "and r/R x A/a over the node ids a/ab/A - every labelled graph) run on the shared and on the disjoint store")
+        "and r/R x A/a over the node ids a/ab/A - every labelled graph) run on the shared and on the disjoint store; on the shared store the "
+        "queried graph of every enumerated case has absorbed (merge_nodes) the namesakes of its first and last node from the second graph, so "
+        "those nodes carry edges into the other graph; deterministic route cases: C5/C6/C7 and theta graphs in 6 link insertion orders with hop "
+        "lists naming the end nodes / repeating nodes / describing a route")
 
 ABS_REL = ["r", "s", "t"]
 ABS_CLS = ["A", "B", "C"]
@@ -169,16 +179,103 @@ class View:
         return canon([sorted(self.nodes), sorted([sorted(e) + [r] for e, r in self.rel.items()])])
 
 
-def case_views(case):
-    n = len(case["graphs"])
-    nodes = [[] for _ in range(n)]
-    links = [[] for _ in range(n)]
-    for op in case["ops"]:
-        if op[1] == "n":
-            nodes[op[0]].append((op[2], op[3]))
+class Store:
+    """The harness's own picture of one NetworkX store holding several graphs: node records (graph index, id, class) and
+    undirected edges between records, one per pair.  What a graph id *is*: the records carrying it and the edges with both
+    ends among them (`nodes` / `links`).  `merge` is nx.contracted_nodes as `merge_nodes` calls it (the other graph's node
+    disappears, its edges move to the caller's node - they now cross into the other graph - an edge the caller's node
+    already has is kept as it is); `move` re-labels a node with another graph id (its edges stay where they are)."""
+
+    def __init__(self):
+        self.recs = {}           # uid -> [graph index, id, class], insertion order
+        self.edges = {}          # frozenset({u, v}) -> (u, rel, v), insertion order
+        self.next = 0
+
+    def find(self, g, i):
+        for u, (gg, ii, _) in self.recs.items():
+            if gg == g and ii == i:
+                return u
+        return None
+
+    def add_node(self, g, i, c):
+        self.recs[self.next] = [g, i, c]
+        self.next += 1
+
+    def add_link(self, g, a, r, b):
+        u, v = self.find(g, a), self.find(g, b)
+        k = frozenset((u, v))
+        if k in self.edges:
+            x, _, y = self.edges[k]
+            self.edges[k] = (x, r, y)                 # the existing edge keeps its place and gets the new relation
         else:
-            links[op[0]].append((op[2], op[3], op[4]))
-    return nodes, links
+            self.edges[k] = (u, r, v)
+
+    def del_node(self, g, i):
+        u = self.find(g, i)
+        del self.recs[u]
+        self.edges = {k: e for k, e in self.edges.items() if u not in k}
+
+    def merge(self, g, i, h):
+        u, v = self.find(g, i), self.find(h, i)
+        moved = [(k, e) for k, e in self.edges.items() if v in k]
+        self.edges = {k: e for k, e in self.edges.items() if v not in k}
+        del self.recs[v]
+        for k, (x, r, y) in moved:
+            x, y = (u if x == v else x), (u if y == v else y)
+            k2 = frozenset((x, y))
+            if k2 not in self.edges:
+                self.edges[k2] = (x, r, y)
+
+    def move(self, g, i, h):
+        self.recs[self.find(g, i)][0] = h
+
+    def nodes(self, g):
+        return [(i, c) for gg, i, c in self.recs.values() if gg == g]
+
+    def links(self, g):
+        out = []
+        for x, r, y in self.edges.values():
+            if self.recs[x][0] == g and self.recs[y][0] == g:
+                out.append((self.recs[x][1], r, self.recs[y][1]))
+        return out
+
+    def crossing(self, g):
+        """edges with exactly one end in graph g, as (id of the end in g, relation, graph index and id of the other end)"""
+        out = []
+        for x, r, y in self.edges.values():
+            for p, q in ((x, y), (y, x)):
+                if self.recs[p][0] == g and self.recs[q][0] != g:
+                    out.append((self.recs[p][1], r, self.recs[q][0], self.recs[q][1]))
+        return out
+
+    def apply(self, op):
+        """op = [graph index, kind, ...]: n id class | l a rel b | d id | m id other-graph (merge) | v id other-graph (move)"""
+        g, k = op[0], op[1]
+        if k == "n":
+            self.add_node(g, op[2], op[3])
+        elif k == "l":
+            self.add_link(g, op[2], op[3], op[4])
+        elif k == "d":
+            self.del_node(g, op[2])
+        elif k == "m":
+            self.merge(g, op[2], op[3])
+        elif k == "v":
+            self.move(g, op[2], op[3])
+        else:
+            raise ValueError(op)
+
+
+def case_store(case):
+    st = Store()
+    for op in case["ops"]:
+        st.apply(op)
+    return st
+
+
+def case_views(case):
+    st = case_store(case)
+    n = len(case["graphs"])
+    return [st.nodes(g) for g in range(n)], [st.links(g) for g in range(n)]
 
 
 # --------------------------------------------------------------------------
@@ -307,7 +404,46 @@ def gen_case(rng, max_nodes):
     nodes, _ = case_views(case)
     if rng.random() < 0.25 and nodes[case["target"]]:
         case["backend"] = "disjoint"      # (an empty graph is a TypeError in the shared store, a query error in the disjoint one)
+    elif len(graphs) > 1 and rng.random() < 0.6:
+        add_cross_ops(rng, case, rels)    # the shared store only: merge_nodes is not implementable on the disjoint one
     return case
+
+
+def add_cross_ops(rng, case, rels):
+    """Edges that cross from one graph of the shared store into another: `merge_nodes` of a node id two graphs have in common
+    (either direction: the queried graph absorbs the other graph's node, or loses its own), or a node re-labelled with the
+    other graph's id; then a few more links.  The queried graph stays what its GraphID says: such edges are not part of it."""
+    st = case_store(case)
+    n = len(case["graphs"])
+    t = case["target"]
+    added = 0
+    for _ in range(rng.choice([1, 1, 2, 3])):
+        g = t if rng.random() < 0.5 else rng.randrange(n)
+        h = rng.choice([x for x in range(n) if x != g])
+        if rng.random() < 0.5:
+            g, h = h, g
+        gi = [i for i, _ in st.nodes(g)]
+        hi = {i for i, _ in st.nodes(h)}
+        common = [i for i in gi if i in hi]
+        only = [i for i in gi if i not in hi]
+        if common and (rng.random() < 0.75 or not only):
+            op = [g, "m", rng.choice(common), h]
+        elif only and len(gi) > 1:
+            op = [g, "v", rng.choice(only), h]
+        else:
+            continue
+        st.apply(op)
+        case["ops"].append(op)
+        added += 1
+    for _ in range(rng.randint(0, 2)):
+        g = t if rng.random() < 0.6 else rng.randrange(n)
+        ids = [i for i, _ in st.nodes(g)]
+        if len(ids) >= 2:
+            a, b = rng.sample(ids, 2)
+            op = [g, "l", a, rng.choice(rels), b]
+            st.apply(op)
+            case["ops"].append(op)
+    case["cross"] = added
 
 
 def special_hop_lists(view, a, z, ids, other_ids, rng=None):
@@ -396,7 +532,7 @@ def all_queries(view, rels, clss, rng=None, budget=None, hops_full=False, other_
     hops.append(["hops", "nope", ids[0] if ids else "x", [], 100])
     if ids:
         hops.append(["hops", ids[0], "nope", [], 100])
-    helpers = []
+    helpers, helpers_out = [], []          # derived helpers inside / outside their documented domain
     for n, c in view.nodes:
         for r in rels[:2]:
             for pc in (clss if len(clss) <= 5 else list(clss)[:4] + [c]):
@@ -404,11 +540,11 @@ def all_queries(view, rels, clss, rng=None, budget=None, hops_full=False, other_
         # the gated helpers on nodes of every class: outside its domain (and only there) a helper raises.  CompositeLink
         # is not Link, CompositeNode is admitted next to NetworkNode - whole-name membership in the label list
         for h in ("peer", "childcps", "nodecps", "linkcps"):
-            helpers.append([h, n])
+            (helpers if c in HELPER_DOMAIN.get(h, ("ConnectionPoint",)) else helpers_out).append([h, n])
     if budget is None:
-        return qs + two + sp + hops + hops2 + helpers
+        return qs + two + sp + hops + hops2 + helpers + helpers_out
     out = []
-    for pool, share in ((qs, 0.12), (two, 0.22), (sp, 0.22), (hops, 0.17), (hops2, 0.17), (helpers, 0.10)):
+    for pool, share in ((qs, 0.12), (two, 0.22), (sp, 0.22), (hops, 0.17), (hops2, 0.17), (helpers, 0.10), (helpers_out, 0.03)):
         k = max(1, int(budget * share))
         if len(pool) <= k:
             out += pool
@@ -439,7 +575,8 @@ def exhaustive_cases(max_n=4, loops_n=3, rels=("x", "xx"), clss=("A", "AB"), emp
     """Containment-related names (x / xx, A / AB) are the alphabet of the main family - isomorphic to any other two-name
     alphabet for an implementation that compares by equality; graphs on <= empty_n nodes are repeated with the empty
     string as a relation and as a class, and with the real constants Link / CompositeLink."""
-    yield from exhaustive_family(max_n, loops_n, rels, clss)
+    for c in exhaustive_family(max_n, loops_n, rels, clss):
+        yield with_absorbed(c)
     if empty_n:
         # the small families run on both stores; the last one has names that differ in case only and node ids related by
         # containment / case (every labelled graph: those ids are not interchangeable)
@@ -447,8 +584,17 @@ def exhaustive_cases(max_n=4, loops_n=3, rels=("x", "xx"), clss=("A", "AB"), emp
                     dict(rels=("connects", "has"), clss=("Link", "CompositeLink")),
                     dict(rels=("r", "R"), clss=("A", "a"), ids=("a", "ab", "A"), dedup=False)):
             for c in exhaustive_family(min(empty_n, len(fam["ids"])) if "ids" in fam else empty_n, 0, **fam):
-                yield c
+                yield with_absorbed(c)
                 yield dict(c, backend="disjoint")
+
+
+def with_absorbed(case):
+    """The queried graph absorbs (merge_nodes) the first and the last of its nodes' namesakes from the second graph of the
+    shared store: its own nodes and edges stay exactly what they were, and those two nodes now also carry edges that lead into
+    the other graph - which no query on this graph id may follow."""
+    ids = [op[2] for op in case["ops"] if op[0] == 0 and op[1] == "n"]
+    extra = [[0, "m", i, 1] for i in dict.fromkeys(ids[:1] + ids[-1:])]
+    return dict(case, ops=case["ops"] + extra, cross=len(extra))
 
 
 def exhaustive_family(max_n, loops_n, rels, clss, ids=None, dedup=True):
@@ -515,8 +661,14 @@ def build_impl(case):
         try:
             if op[1] == "n":
                 g.add_node(node_id=op[2], label=op[3], props={"Name": "name-" + op[2]})
-            else:
+            elif op[1] == "l":
                 g.add_link(node_a=op[2], rel=op[3], node_b=op[4])
+            elif op[1] == "m":
+                g.merge_nodes(node_id=op[2], other_graph=gs[op[3]])
+            elif op[1] == "v":
+                g.update_node_property(node_id=op[2], prop_name="GraphID", prop_val=case["graphs"][op[3]])
+            else:
+                raise ValueError(op)
         except Exception as e:      # generated cases only contain valid operations (ids distinct per graph, link ends exist)
             raise BuildFailed(k, err_kind(e))
     return gs
@@ -674,18 +826,21 @@ def compare(view, q, impl, model):
     return None if canon_reply(q, impl) == canon_reply(lean_query(q), model) else "value"
 
 
-_STATE = {"exhaustive_judged": False, "judged": Result()}
+_STATE = {"exhaustive_judged": False, "judged": Result(), "disagreements": []}
 
 
 def run_cases(ctx, res, cases, budget, tag, hops_full=False, judge=False):
     rng = ctx.sub_rng("queries/" + tag)
     lines, meta = [], []
     for case in cases:
-        nodes, links = case_views(case)
+        store = case_store(case)
+        n = len(case["graphs"])
+        nodes, links = [store.nodes(g) for g in range(n)], [store.links(g) for g in range(n)]
         t = case["target"]
         view = View(nodes[t], links[t])
+        view.crossing = {x[0] for x in store.crossing(t)}     # nodes of the target with an edge into another graph of the store
         rels, clss = case["alphabet"]
-        qs = all_queries(view, rels, clss, rng, budget, hops_full, foreign_ids(nodes, t))
+        qs = case.get("queries") or all_queries(view, rels, clss, rng, budget, hops_full, foreign_ids(nodes, t))
         try:
             gs = build_impl(case)
         except BuildFailed as b:
@@ -712,6 +867,12 @@ def run_cases(ctx, res, cases, budget, tag, hops_full=False, judge=False):
             res.count("ids:" + case.get("ids", "plain"))
             for t in related_tags(view, q):
                 res.count("related-name:" + t)
+            if len(case["graphs"]) > 1:
+                res.count("store:several-graphs")
+                if view.crossing:
+                    res.count("store:edges-crossing-out-of-the-queried-graph")
+                    if q[1] in view.crossing or (q[0] in ("sp", "hops") and q[2] in view.crossing):
+                        res.count("store:queried-node-has-crossing-edge")
             if q[0] in HELPER_DOMAIN:
                 res.count("helper-domain:" + ("inside" if view.cls.get(q[1]) in HELPER_DOMAIN[q[0]] else "outside"))
             if i[0] == "err":
@@ -729,6 +890,7 @@ def run_cases(ctx, res, cases, budget, tag, hops_full=False, judge=False):
                 res.disagreements.append({"case": {"graphs": case["graphs"], "ops": case["ops"], "target": case["target"], "query": q,
                                                    "backend": case.get("backend", "shared")},
                                           "impl": i, "model": m, "why": why})
+                _STATE["disagreements"].append(res.disagreements[-1]["case"])
         if len(res.samples) < 3 and qs:
             k = next((j for j, (q, i) in enumerate(zip(qs, impl)) if i[0] == "ok" and i[1]), 0)
             res.sample({"view": json.loads(vc), "query": qs[k], "impl": impl[k], "model": rep[1][k]})
@@ -763,7 +925,67 @@ def corner_cases():
              [("a", "r", "b"), ("b", "r", "c"), ("c", "r", "d"), ("a", "r", "c"), ("b", "s", "d"), ("a", "s", "a")])]),
         mk([([("a", "A"), ("b", "B"), ("c", "B")], [("a", "r", "a"), ("a", "r", "b"), ("b", "r", "b"), ("b", "s", "c")])]),
         mk([([], []), ([("a", "A")], [])]),
-    ]
+    ] + cross_corner_cases() + route_corner_cases()
+
+
+def cross_corner_cases():
+    """Several graphs in ONE shared store with edges that cross between them.  g: sf -x- cp, cp -x- l ; h (same ids, other
+    classes): cp -x- l, l -x- cp2, cp -x- sf9, cp -xx- q.  Merging cp (g absorbs h's cp / h absorbs g's cp), re-labelling,
+    links added afterwards, both targets.  A query on one graph id never sees the other graph's nodes."""
+    import random
+    g = ([("sf", "A"), ("cp", "B"), ("l", "A")], [("sf", "x", "cp"), ("cp", "x", "l")])
+    h = ([("cp", "B"), ("l", "A"), ("cp2", "B"), ("sf9", "A"), ("q", "B")],
+         [("cp", "x", "l"), ("l", "x", "cp2"), ("cp", "x", "sf9"), ("cp", "xx", "q")])
+    out = []
+    for extra in ([[0, "m", "cp", 1]], [[1, "m", "cp", 0]], [[0, "m", "cp", 1], [0, "m", "l", 1]], [[0, "m", "cp", 1], [1, "m", "l", 0]],
+                  [[1, "v", "sf9", 0]], [[0, "v", "sf", 1], [0, "m", "cp", 1]], [[0, "m", "cp", 1], [0, "l", "cp", "xx", "sf"], [1, "l", "l", "xx", "sf9"]],
+                  [[0, "m", "l", 1], [0, "m", "cp", 1], [1, "n", "cp", "A"], [1, "l", "cp", "x", "cp2"], [0, "m", "cp", 1]]):
+        for t in ((0, 1) if len(out) < 8 else (0,)):
+            c = make_case(random.Random(1), [g, h])
+            c["ops"] += extra
+            c["target"] = t
+            c["alphabet"] = [["x", "xx"], ["A", "B"]]
+            c["cross"] = len(extra)
+            out.append(c)
+    return out
+
+
+def route_corner_cases():
+    """Two or three loop-free routes of different length between the same end nodes - cycles C5, C6, C7 and theta graphs -
+    each in several link insertion orders, so that whichever route the enumeration meets first, the answer must be the
+    shortest one; queried with hop lists that name the end nodes, repeat a node, or describe a whole route."""
+    import random
+    out = []
+
+    def add(names, links):
+        for order in (links, links[::-1], links[1::2] + links[0::2]):
+            for flip in (False, True):
+                ls = [(b, r, a) if flip else (a, r, b) for a, r, b in order]
+                c = make_case(random.Random(2), [([(i, "A") for i in names], ls)])
+                c["alphabet"] = [["r"], ["A"]]
+                view = View([(i, "A") for i in names], ls)
+                qs = []
+                for a, z in (("a", "z"), ("z", "a"), (names[1], names[-1])):
+                    mids = [i for i in names if i not in (a, z)]
+                    for hs in [[]] + [[m] for m in mids] + special_hop_lists(view, a, z, names, [], None):
+                        qs.append(["hops", a, z, hs, 100])
+                        if len(hs) <= 1:
+                            qs.append(["hops", a, z, hs, 3])
+                    qs.append(["sp", a, z, None])
+                c["queries"] = qs
+                out.append(c)
+    for n in (5, 6, 7):
+        names = ["a", "x", "y", "z", "w", "v", "u"][:n]
+        # a - x - y - z is the long way round for n == 5; the short way is a - w - z
+        ring = ["a", "x", "y", "z"] + names[4:][::-1]
+        add(names, [(ring[i], "r", ring[(i + 1) % n]) for i in range(n)])
+    # theta graphs: a .. z by routes of 2, 3 and 4 edges
+    add(["a", "z", "p", "q1", "q2", "s1", "s2", "s3"],
+        [("a", "r", "s1"), ("s1", "r", "s2"), ("s2", "r", "s3"), ("s3", "r", "z"), ("a", "r", "q1"), ("q1", "r", "q2"), ("q2", "r", "z"),
+         ("a", "r", "p"), ("p", "r", "z")])
+    add(["a", "z", "q1", "q2", "s1", "s2", "s3"],
+        [("a", "r", "s1"), ("s1", "r", "s2"), ("s2", "r", "s3"), ("s3", "r", "z"), ("a", "r", "q1"), ("q1", "r", "q2"), ("q2", "r", "z")])
+    return out
 
 
 def both_backends(cases):
@@ -773,7 +995,7 @@ def both_backends(cases):
     for c in cases:
         out.append(c)
         nodes, _ = case_views(c)
-        if nodes[c["target"]] and c.get("backend") != "disjoint":
+        if nodes[c["target"]] and c.get("backend") != "disjoint" and not any(op[1] in ("m", "v") for op in c["ops"]):
             out.append(dict(c, backend="disjoint"))
     return out
 
@@ -804,6 +1026,8 @@ HELPER_DOMAIN = {"linkcps": ("Link", "NetworkService"), "childcps": ("Connection
 
 def classify_extra_pair(view, n, q, m, k):
     _, _, r1, c1, r2, c2 = q
+    if m not in view.cls or k not in view.cls:
+        return "node-not-in-graph"
     if view.r(n, m) is None:
         return "first-hop-not-adjacent"
     if view.r(n, m) != r1:
@@ -840,7 +1064,8 @@ def check_query(view, case, q, rep, res, cc=None):
         if len(set(got)) != len(got):
             bad("first_neighbor:duplicate", "a neighbour is returned twice", expected=exp, observed=got)
         for m in sorted(set(got) - set(exp)):
-            why = ("not-adjacent" if view.r(n, m) is None else "wrong-relation" if view.r(n, m) != r else "wrong-class")
+            why = ("not-in-graph" if m not in view.cls else "not-adjacent" if view.r(n, m) is None
+                   else "wrong-relation" if view.r(n, m) != r else "wrong-class")
             bad("first_neighbor:extra:" + why, "a node that is not a %s-neighbour of class %s is returned" % (r, c), expected=exp, observed=sorted(got))
         if set(exp) - set(got):
             bad("first_neighbor:missing", "a neighbour of the requested relation and class is not returned", expected=exp, observed=sorted(got))
@@ -906,6 +1131,8 @@ def check_query(view, case, q, rep, res, cc=None):
             bad("hops:not-minimal", "a shorter loop-free path with all hops exists", expected={"length": best}, observed=p)
     elif op in ("peer", "nodecps", "linkcps", "childcps", "parent"):
         n = q[1]
+        if n not in view.cls:
+            return
         if op == "parent":
             cand = sorted(m for m in view.adj[n] if view.r(n, m) == q[2] and view.cls[m] == q[3])
             exp = cand[0] if len(cand) == 1 else None
@@ -953,31 +1180,38 @@ def check_query(view, case, q, rep, res, cc=None):
 
 
 class MView:
-    """mutable harness view of one graph id"""
+    """mutable harness view of one graph id: a window on the Store all graphs of the history share"""
 
-    def __init__(self):
-        self.nodes = []          # [(id, cls)]
-        self.edges = []          # [(a, rel, b)] one per unordered pair, insertion order
+    def __init__(self, store, g):
+        self.store, self.g = store, g
+
+    @property
+    def nodes(self):
+        return self.store.nodes(self.g)          # [(id, cls)]
+
+    @property
+    def edges(self):
+        return self.store.links(self.g)          # [(a, rel, b)] one per unordered pair, insertion order
 
     def add_node(self, i, c):
-        self.nodes.append((i, c))
+        self.store.add_node(self.g, i, c)
 
     def add_link(self, a, r, b):
-        for k, (x, _, y) in enumerate(self.edges):
-            if {x, y} == {a, b}:
-                self.edges[k] = (x, r, y)
-                return
-        self.edges.append((a, r, b))
+        self.store.add_link(self.g, a, r, b)
 
     def del_node(self, i):
-        self.nodes = [n for n in self.nodes if n[0] != i]
-        self.edges = [e for e in self.edges if i not in (e[0], e[2])]
+        self.store.del_node(self.g, i)
 
     def ids(self):
         return [i for i, _ in self.nodes]
 
     def view(self):
         return View(self.nodes, self.edges)
+
+
+def make_mviews(n):
+    st = Store()
+    return [MView(st, g) for g in range(n)]
 
 
 def rand_query(mv, rels, clss, rng, foreign):
@@ -1020,6 +1254,21 @@ def rand_mutation(mv, w, rels, clss, rng, fresh_id, near=None):
     return ["d", w, rng.choice(cand)] if len(ids) > 2 else ["n", w, fresh_id, rng.choice(clss)]
 
 
+def rand_cross(mvs, g, rng):
+    """a merge_nodes / re-labelling step between graph g and another graph of the (shared) store, or None"""
+    h = rng.choice([x for x in range(len(mvs)) if x != g])
+    if rng.random() < 0.5:
+        g, h = h, g
+    gi, hi = mvs[g].ids(), set(mvs[h].ids())
+    common = [i for i in gi if i in hi]
+    only = [i for i in gi if i not in hi]
+    if common and (rng.random() < 0.75 or not only):
+        return g, ["m", None, rng.choice(common), h]
+    if only and len(gi) > 1:
+        return g, ["v", None, rng.choice(only), h]
+    return None
+
+
 def apply_step(mvs, wrappers, st):
     mv = mvs[wrappers[st[1]]]
     if st[0] == "n":
@@ -1028,6 +1277,10 @@ def apply_step(mvs, wrappers, st):
         mv.add_link(st[2], st[3], st[4])
     elif st[0] == "d":
         mv.del_node(st[2])
+    elif st[0] == "m":
+        mv.store.merge(mv.g, st[2], st[3])
+    elif st[0] == "v":
+        mv.store.move(mv.g, st[2], st[3])
 
 
 def gen_history(rng, max_nodes):
@@ -1040,7 +1293,8 @@ def gen_history(rng, max_nodes):
     for g in range(1, ng):
         wrappers += [g] * rng.choice([1, 2])
     wof = {g: [w for w, x in enumerate(wrappers) if x == g] for g in range(ng)}
-    mvs = [MView() for _ in graphs]
+    mvs = make_mviews(ng)
+    disjoint = rng.random() < 0.25
     steps = []
     counter = [0]
 
@@ -1087,6 +1341,12 @@ def gen_history(rng, max_nodes):
                 push(["q", rng.choice(wof[og]), rand_query(mvs[og], rels, clss, rng, foreign(og))])
             else:
                 push(rand_mutation(mvs[og], rng.choice(wof[og]), rels, clss, rng, fresh_id()))
+        if ng > 1 and not disjoint and rng.random() < 0.3:
+            # an edge that crosses graphs (shared store only): merge_nodes on a common id, or a node re-labelled with another graph id
+            cr = rand_cross(mvs, g, rng)
+            if cr:
+                cr[1][1] = rng.choice(wof[cr[0]])
+                push(cr[1])
         others = [x for x in ws if x != w]
         mw = rng.choice(others) if others and rng.random() < 0.75 else w
         for _ in range(rng.choice([1, 1, 2])):
@@ -1096,7 +1356,7 @@ def gen_history(rng, max_nodes):
         if rng.random() < 0.3:
             push(["q", rng.choice(ws), rand_query(mvs[g], rels, clss, rng, foreign(g))])
     case = {"kind": "history", "graphs": graphs, "wrappers": wrappers, "steps": steps, "alphabet": [rels, clss], "ids": namer.style}
-    if rng.random() < 0.25:
+    if disjoint:
         case["backend"] = "disjoint"
     return case
 
@@ -1141,7 +1401,7 @@ def run_history(case):
         imp = NetworkXGraphImporter()
     wrappers = case["wrappers"]
     ws = [G(graph_id=case["graphs"][g], importer=imp) for g in wrappers]
-    mvs = [MView() for _ in case["graphs"]]
+    mvs = make_mviews(len(case["graphs"]))
     last_mut = {}            # graph idx -> wrapper index of the latest mutation since ... (per asking wrapper)
     dirty = {}               # (asking wrapper) -> set of wrappers that mutated its graph since it last asked
     out = []
@@ -1156,20 +1416,26 @@ def run_history(case):
             tag = ("no-mutation-since" if not since else "after-mutation-through-other-wrapper" if since - {w}
                    else "after-own-mutation")
             dirty[w] = set()
-            out.append((k, g, mvs[g].view(), q, rep, fresh, tag))
+            v = mvs[g].view()
+            v.crossing = {x[0] for x in mvs[g].store.crossing(g)}
+            out.append((k, g, v, q, rep, fresh, tag))
         else:
             try:
                 if st[0] == "n":
                     ws[w].add_node(node_id=st[2], label=st[3], props={"Name": "name-" + st[2]})
                 elif st[0] == "l":
                     ws[w].add_link(node_a=st[2], rel=st[3], node_b=st[4])
+                elif st[0] == "m":
+                    ws[w].merge_nodes(node_id=st[2], other_graph=G(graph_id=case["graphs"][st[3]], importer=imp))
+                elif st[0] == "v":
+                    ws[w].update_node_property(node_id=st[2], prop_name="GraphID", prop_val=case["graphs"][st[3]])
                 else:
                     ws[w].delete_node(node_id=st[2])
             except Exception as e:      # generated histories only contain valid mutations
                 out.append((k, g, mvs[g].view(), ["mutation"] + list(st), ["err", err_kind(e)], ["ok", None], "mutation-failed"))
             apply_step(mvs, wrappers, st)
             for x, gx in enumerate(wrappers):
-                if gx == g:
+                if gx == g or (st[0] in ("m", "v") and gx == st[3]):
                     dirty.setdefault(x, set()).add(w)
     return out
 
@@ -1238,9 +1504,14 @@ def run_histories(ctx, res, cases):
             continue
         if nontrivial(view, q, rep) and tag != "no-mutation-since":
             res.nontrivial.add(canon(["history", view.canon(), q, tag]))
+        if getattr(view, "crossing", None):
+            res.count("history:store:edges-crossing-out-of-the-queried-graph")
+            if q[1] in view.crossing or (q[0] in ("sp", "hops") and q[2] in view.crossing):
+                res.count("history:store:queried-node-has-crossing-edge")
         why = compare(view, q, rep, m[1][0])
         if why:
             res.disagreements.append({"case": hist_payload(case, k), "impl": rep, "model": m[1][0], "why": why + ":" + tag})
+            _STATE["disagreements"].append(res.disagreements[-1]["case"])
     if meta:
         case, k, view, q, rep, tag = next((x for x in meta if x[5] == "after-mutation-through-other-wrapper"), meta[-1])
         res.sample({"history_steps": case["steps"][:k + 1][-6:], "wrappers": case["wrappers"], "answer": rep, "tag": tag})
@@ -1331,7 +1602,46 @@ def oracle(ctx, res, n=None, budget=None, hist_n=None):
                           "validity + minimal length for paths", "cases": n})
 
 
+def judge_payload(case, r):
+    """the property oracle on one recorded case (static case with its query, or a history up to its last step)"""
+    case = dict(case)
+    if case.get("kind") == "history":
+        results = run_history(case)
+        judge_history(case, r, [x for x in results if x[0] == len(case["steps"]) - 1])
+        return results
+    case.setdefault("alphabet", [ABS_REL[:2], ABS_CLS[:2]])
+    nodes, links = case_views(case)
+    t = case["target"]
+    view = View(nodes[t], links[t])
+    try:
+        gs = build_impl(case)
+    except BuildFailed as b:
+        r.violation("C06:build:raises:" + b.kind, "a valid operation of the case raised", build_payload(case, b), observed=["err", b.kind])
+        return None
+    q = case["query"]
+    if q == ["build"]:
+        return None
+    rep = impl_query(gs[t], q)
+    r.evaluations += 1
+    check_query(view, case, q, rep, r)
+    return rep
+
+
 def search(ctx, res, broken):
+    # the cases on which implementation and model disagreed come first: where the implementation's answer breaks the
+    # property itself, that is the concrete failing input
+    seen = set()
+    for c in _STATE["disagreements"]:
+        k = canon(c)
+        if k in seen or len(seen) >= 400:
+            continue
+        seen.add(k)
+        try:
+            judge_payload(c, res)
+        except Exception:
+            pass
+    if res.violations:
+        return
     oracle_cases(ctx, res, corpus_cases(), None, "corpus")
     oracle_cases(ctx, res, exhaustive_cases(max_n=ctx.scale(3, 4), loops_n=ctx.scale(2, 3), empty_n=ctx.scale(2, 3)), None, "exhaustive", hops_full=True)
     if not res.violations:
